@@ -8,12 +8,12 @@
 
 package timednetconn
 
-//@ func New returns (c)
+//@ func New params (readTimeout, writeTimeout, wrapped) returns (c)
 //@   ensures  [wraps-with-the-given-timeouts] c != nil && dynIs(c, "*timednetconn.conn") && c.(*conn).readTimeout == readTimeout &&
 //@              c.(*conn).writeTimeout == writeTimeout && c.(*conn).wrapped == wrapped
 //@   modifies nothing
 
-//@ func (*conn).Read returns (n, err)
+//@ func (*conn).Read params (c, buf) returns (n, err)
 //@   requires c != nil && c.wrapped != nil
 //@   ensures  [armed-first] logLen() >= 1 && logCallee(0, "net.Conn.SetReadDeadline") && logDeadlineFresh(0, c.readTimeout)
 //@   ensures  [deadline-error] logErr(0) != nil ==> logLen() == 1 && n == 0 && err == logErr(0)
@@ -21,7 +21,7 @@ package timednetconn
 //@   canary   logLen() == 1
 //@   modifies buf[:], ghost:log
 
-//@ func (*conn).Write returns (n, err)
+//@ func (*conn).Write params (c, buf) returns (n, err)
 //@   requires c != nil && c.wrapped != nil
 //@   ensures  [armed-first] logLen() >= 1 && logCallee(0, "net.Conn.SetWriteDeadline") && logDeadlineFresh(0, c.writeTimeout)
 //@   ensures  [deadline-error] logErr(0) != nil ==> logLen() == 1 && n == 0 && err == logErr(0)
@@ -29,7 +29,7 @@ package timednetconn
 //@   canary   logLen() == 1
 //@   modifies ghost:log
 
-//@ func (*conn).Close
+//@ func (*conn).Close params (c) returns (err)
 //@   requires c != nil && c.wrapped != nil
 //@   ensures  logLen() == 1 && logCallee(0, "net.Conn.Close") && err == logErr(0)
 //@   modifies ghost:log
